@@ -334,7 +334,7 @@ def replay_state(st: dict, out: dict, want_event: bool, want_rejects: bool = Tru
         expected = {EXC[rj["err"]]}
         try:
             res = w.call(c, rel)
-            V(["C20"] + (["C11"] if rj["err"] == "OrderLoss" else []),
+            V(["C20"] + (["C11"] if rj["err"] == "OrderLoss" else []) + (["C14"] if rj["err"] == "EngineError" else []),
               "a request that must be refused returned a relation", request=c, expected=sorted(expected), returned=str(res))
         except Exception as exc:  # noqa: BLE001
             if type(exc).__name__ not in expected:
